@@ -1841,6 +1841,15 @@ class MixedBC(ConstBC1stOrderBase):
         """
         super().__init__(grid, axis, upper, rank=rank, value=value)
         self.const = self._parse_value(const)
+        if self.const.shape != self._value.shape:
+            # only one parameter varies along the boundary => expand the other one
+            shape = self._shape_tensor + self._shape_boundary
+            expand = (..., *(np.newaxis,) * len(self._shape_boundary))
+            if self.homogeneous:
+                self._value = np.array(np.broadcast_to(self._value[expand], shape))
+                self.homogeneous = False
+            elif self.const.ndim > 0:  # scalars can always be broadcasted
+                self.const = np.array(np.broadcast_to(self.const[expand], shape))
 
     def __eq__(self, other):
         """Checks for equality neglecting the `upper` property.
